@@ -8,6 +8,10 @@
  *   drv_c07 red <N>                  binary on stdout: firmware ARFCN (u16 LE) for the reduced space
  *                                    x 0..63 (= HSN xor T1R), r 0..1325 (= FN mod 1326), k 0..3 (MAIO set)
  *   drv_c07 vec                      stdin lines "hsn maio n fn" -> "fw=<arfcn> fwidx=<i> spec=<mai>"
+ *   drv_c07 hist <lo> <hi>           order independence: FN fixed in the OUTER loop (entries lo..hi-1 of the
+ *                                    history FN list), ALL (hsn, N, maio, MA contents) configurations in the
+ *                                    inner loops, interleaved with non-hopping and no-dedicated-channel calls
+ *                                    for the same FN: the result must be a function of (HSN, MAIO, MA, FN) only
  *
  * The mobile allocation is N *distinct* channel numbers (ma[i] = 512 + (29 i mod 64), shuffled so
  * that index and value never coincide), so the index chosen is observable in the ARFCN returned.
@@ -80,7 +84,8 @@ static unsigned spec_mai(unsigned hsn, unsigned maio, unsigned n, uint32_t fn)
 }
 
 /* --- the firmware under test ----------------------------------------------------------------- */
-static uint16_t ma_val(unsigned i) { return 512 + ((i * 29u + 7u) % 64u); }
+static unsigned ma_base = 512;
+static uint16_t ma_val(unsigned i) { return ma_base + ((i * 29u + 7u) % 64u); }
 
 static void configure(unsigned hsn, unsigned maio, unsigned n)
 {
@@ -265,6 +270,71 @@ int main(int argc, char **argv)
 			}
 		fwrite(buf, 1, sizeof(buf), stdout);
 		return 0;
+	}
+	if (argc >= 4 && !strcmp(argv[1], "hist")) {
+		/* history FN list (the same formula in c07.py): boundaries + 300 FN spread over the T1R cycle */
+		static const uint32_t fix[] = { 0, 1, 2, 25, 26, 50, 51, 52, 1325, 1326, 1327, 84863, 84864, 84865,
+			65535, 65536, 65537, 1048575, 1048576, HYPER / 2, HYPER - 1327, HYPER - 1326, HYPER - 2, HYPER - 1 };
+		enum { NFIX = sizeof(fix) / sizeof(fix[0]), NSPREAD = 300 };
+		static const unsigned bases[2] = { 512, 700 };
+		unsigned lo = atoi(argv[2]), hi = atoi(argv[3]), idx, b;
+		unsigned long nhop = 0, nagain = 0, nnonhop = 0, nnone = 0, step = 0;
+		if (hi > NFIX + NSPREAD) hi = NFIX + NSPREAD;
+		for (idx = lo; idx < hi; idx++) {
+			struct gsm_time t;
+			fn = idx < NFIX ? fix[idx] : ((idx - NFIX) * 283u + 17u) % (64 * SUPER);
+			memset(&t, 0xa5, sizeof(t));
+			gsm_fn2gsmtime(&t, fn);
+			printf("P idx=%u fn=%u\n", idx, fn);
+			fflush(stdout);
+			for (hsn = 0; hsn < 64; hsn++)
+				for (n = 1; n <= 64; n++) {
+					nm = maio_set(n, maio);
+					for (k = 0; k < nm; k++)
+						for (b = 0; b < 2; b++) {
+							unsigned want;
+							uint16_t got;
+							/* consecutive calls: same FN, parameters differ (MA contents change
+							 * fastest: the same MAI must give a different ARFCN) */
+							ma_base = bases[b];
+							configure(hsn, maio[k], n);
+							want = spec_mai(hsn, maio[k], n, fn);
+							got = fw_arfcn_t(&t);
+							nhop++;
+							if (got != ma_val(want) && nviol++ < 20)
+								printf("H kind=hop idx=%u fn=%u hsn=%u maio=%u n=%u base=%u fw=%u fwidx=%d spec=%u want=%u\n",
+								       idx, fn, hsn, maio[k], n, ma_base, got, fw_index(got, n), want, ma_val(want));
+							if (step++ % 5)
+								continue;
+							/* same FN, non-hopping dedicated channel (h0 shares storage with h1) */
+							l1s.dedicated.h = 0;
+							l1s.dedicated.h0.arfcn = 100 + step % 800;
+							got = fw_arfcn_t(&t);
+							nnonhop++;
+							if (got != 100 + step % 800 && nviol++ < 20)
+								printf("H kind=nonhop idx=%u fn=%u hsn=%u maio=%u n=%u base=%u fw=%u fwidx=-1 spec=0 want=%lu\n",
+								       idx, fn, hsn, maio[k], n, ma_base, got, 100 + step % 800);
+							/* same FN, no dedicated channel: serving cell */
+							l1s.dedicated.type = GSM_DCHAN_NONE;
+							l1s.serving_cell.arfcn = 900 + step % 100;
+							got = fw_arfcn_t(&t);
+							nnone++;
+							if (got != 900 + step % 100 && nviol++ < 20)
+								printf("H kind=none idx=%u fn=%u hsn=%u maio=%u n=%u base=%u fw=%u fwidx=-1 spec=0 want=%lu\n",
+								       idx, fn, hsn, maio[k], n, ma_base, got, 900 + step % 100);
+							/* and back to the hopping channel, same FN: same answer as before */
+							configure(hsn, maio[k], n);
+							got = fw_arfcn_t(&t);
+							nagain++;
+							if (got != ma_val(want) && nviol++ < 20)
+								printf("H kind=again idx=%u fn=%u hsn=%u maio=%u n=%u base=%u fw=%u fwidx=%d spec=%u want=%u\n",
+								       idx, fn, hsn, maio[k], n, ma_base, got, fw_index(got, n), want, ma_val(want));
+						}
+				}
+		}
+		printf("{\"hist_fns\": %u, \"hist_hopping\": %lu, \"hist_hopping_repeat\": %lu, \"hist_nonhopping\": %lu, "
+		       "\"hist_serving_cell\": %lu, \"violations\": %lu}\n", hi > lo ? hi - lo : 0, nhop, nagain, nnonhop, nnone, nviol);
+		return nviol ? 1 : 0;
 	}
 	if (argc >= 2 && !strcmp(argv[1], "vec")) {
 		unsigned m;
